@@ -1,4 +1,5 @@
 import CpProofs.C04Lemmas
+import CpProofs.C04Names
 import CpProofs.C05
 /-!
   C04 — multipart bodies are parsed byte-exactly.
@@ -16,7 +17,8 @@ import CpProofs.C05
     CRLF--boundary”) instead of `DelimFree` is false: witness `a\n--B\nb` (finding F7).
   * `C04_content_independent_of_threshold`, `C04_no_overread` (from C05), `C04_readline_is_cursor`
     (the bridge: what this model assumes of the reader is what C05 proves of `SizedReader`).
-  * `C04_same_name_wire_order`  grouping by name keeps wire order.
+  * `C04_same_name_wire_order`  grouping by name keeps wire order; `C04_zero_parts`;
+    `C04_names_field`, `C04_names_file` (in `C04Names.lean`): name / filename / content type extraction.
 -/
 namespace CpProofs.C04
 open CpModel.Reader CpModel.Cursor CpModel.Multipart
